@@ -322,7 +322,7 @@ func runTypedScenario(w *ndWriter, p typedPkg, seed int64) {
 			o := lr[0].Index(i).Interface().(metav1.Object)
 			tl = append(tl, keyOfMeta(o)+"@"+o.GetResourceVersion())
 		}
-		ulst, _ := uc.Cache().List()
+		ulst, ulerr := uc.Cache().List()
 		for _, o := range ulst {
 			ul = append(ul, keyOfMeta(o)+"@"+o.GetResourceVersion())
 		}
@@ -338,8 +338,8 @@ func runTypedScenario(w *ndWriter, p typedPkg, seed int64) {
 		for k := range foreign {
 			fk = append(fk, k)
 		}
-		w.write2(fmt.Sprintf(`{"k":"typed.snap","pkg":%q,"tag":%q,"seed":%d,"quiet":%v,"tev":%s,"uev":%s,"tlist":%s,"ulist":%s,"tlisterr":%v,"foreign":%s,"foreign_get":%q,"tready":%v,"uready":%v,"tdone":%v,"udone":%v,"tmon":%s,"umon":%s}`,
-			p.name, tag, seed, quiet, te, ue, jsStrs(tl), jsStrs(ul), tlerr, jsStrs(fk), fg, isClosed(tready), isClosed(uc.Ready()),
+		w.write2(fmt.Sprintf(`{"k":"typed.snap","pkg":%q,"tag":%q,"seed":%d,"quiet":%v,"tev":%s,"uev":%s,"tlist":%s,"ulist":%s,"tlisterr":%v,"ulisterr":%v,"foreign":%s,"foreign_get":%q,"tready":%v,"uready":%v,"tdone":%v,"udone":%v,"tmon":%s,"umon":%s}`,
+			p.name, tag, seed, quiet, te, ue, jsStrs(tl), jsStrs(ul), tlerr, ulerr != nil, jsStrs(fk), fg, isClosed(tready), isClosed(uc.Ready()),
 			isClosed(chanOf(call(tc, "Done")[0])), isClosed(uc.Done()), me, ume))
 	}
 	if gated {
@@ -490,7 +490,7 @@ func (t *recTransport) RoundTrip(r *http.Request) (*http.Response, error) {
 }
 
 func runTypedRequests(w *ndWriter, p typedPkg) {
-	for _, ns := range []string{"", "n1"} {
+	for _, ns := range []string{"", "n1", "default"} {
 		rt := &recTransport{}
 		cs, err := kubernetes.NewForConfig(&rest.Config{Host: "http://fake.invalid", Transport: rt})
 		if err != nil {
